@@ -636,7 +636,40 @@ def r11_release_grids(ctx: Context) -> None:
                       f"fixed releases are `{norm(c)[:140]}`: not N releases one period apart from the start")
 
 
+def r15_description_values(ctx: Context) -> None:
+    ctx.rule("C19.R15", "values read from the description keep what the description says: an optional field is defaulted only when it is "
+                        "absent (never through `or`, which also replaces a legal 0 / 0.0 / False), and `declared if override_X is None else "
+                        "override_X` tests the very override it falls back from")
+    n_or = n_ov = 0
+    for rel, cname in (("data/workload_loader.py", "WorkloadLoader"),):
+        cls = ctx.repo.mod(rel).cls(cname)
+        for fn in methods(cls).values():
+            for node in ast.walk(fn):
+                # `x.get(k) or d` / `x[k] or d` where x is a description node
+                if isinstance(node, ast.BoolOp) and isinstance(node.op, ast.Or) and len(node.values) == 2:
+                    a = node.values[0]
+                    reads = (isinstance(a, ast.Call) and isinstance(a.func, ast.Attribute) and a.func.attr == "get" and a.args and isinstance(a.args[0], ast.Constant)) \
+                        or (isinstance(a, ast.Subscript) and isinstance(a.slice, ast.Constant) and isinstance(a.slice.value, str))
+                    if reads and isinstance(node.values[1], ast.Constant) and not isinstance(node.values[1].value, (str, type(None))):
+                        n_or += 1
+                        ctx.violation("C19.R15", f"{rel}::{cname}.{fn.name}|`{norm(node)[:60]}` keeps a declared falsy value", loc(node),
+                                      f"`{norm(node)[:80]}` replaces a declared 0 / 0.0 / False by the default: the loaded job differs from its description "
+                                      "(a branch declared with probability 0.0 is loaded as certain)")
+                if isinstance(node, ast.IfExp) and isinstance(node.test, ast.Compare) and len(node.test.ops) == 1 and isinstance(node.test.ops[0], (ast.Is, ast.IsNot)) \
+                        and isinstance(node.test.left, ast.Name) and node.test.left.id.startswith("override_") \
+                        and isinstance(node.test.comparators[0], ast.Constant) and node.test.comparators[0].value is None:
+                    other = node.orelse if isinstance(node.test.ops[0], ast.Is) else node.body
+                    n_ov += 1
+                    ok = isinstance(other, ast.Name) and other.id == node.test.left.id
+                    ctx.check(ok, "C19.R15", f"{rel}::{cname}.{fn.name}|`{norm(node)[:50]}` tests the override it uses", loc(node), "same override",
+                              f"`{norm(node)[:90]}` decides by `{node.test.left.id}` but falls back to `{norm(other)[:40]}`: with only one of the overrides "
+                              "given the declared value is ignored or None is passed on")
+    ctx.count("override_selections", n_ov)
+    ctx.floor("C19.R15", "override selections in the loader", n_ov, 4)
+
+
 def run(ctx: Context) -> None:
+    ctx.isolate(r15_description_values)
     ctx.isolate(r1_no_state_leak)
     ctx.isolate(r2_release_policy_dispatch)
     ctx.isolate(r3_keyword_agreement)
